@@ -14,6 +14,10 @@ def optimizer_shards(per_optimizer, names=None, extra=None):
     return out
 
 
+class _SkipDecoded(Exception):
+    pass
+
+
 def common_labels(spec, obs):
     t = spec["task"]
     labs = ["enc:" + t.get("encoding", oracles.encoding_of(t)), "minmax:" + t["minmax"],
@@ -24,6 +28,10 @@ def common_labels(spec, obs):
         labs.append("config_repaired")
     if spec.get("warmup") is not None:
         labs.append("reused_instance")
+    if t.get("naming"):
+        labs.append("names:" + t["naming"])
+    if t["objective"].get("integer"):
+        labs.append("objective:int-" + t["objective"]["integer"])
     if obs.outcome == "exc":
         labs.append("raised:" + obs.exc_key[0])
     return labs
@@ -121,11 +129,15 @@ def cost_violations(spec, obs, prop="C02"):
         if not oracles.close(float(a.cost), float(c_true)):
             add("cost", f"{where}: reported cost {a.cost!r}, objective at the reported position {c_true!r}")
         try:
+            if t.get("naming"):
+                raise _SkipDecoded   # names are not distinct: the dictionary cannot hold one entry per variable
             decoded = twin.transform_solution(a.position)
             c_dec = oracles.truth_from_decoded(t, decoded)
             if not oracles.close(float(a.cost), float(c_dec)):
                 add("decoded", f"{where}: reported cost {a.cost!r}, objective of transform_solution(position) "
                                f"{c_dec!r} ({decoded!r})"[:400])
+        except _SkipDecoded:
+            pass
         except Exception as e:  # noqa: BLE001 - a decoding failure on a member position is itself a disagreement
             add("decoded", f"{where}: transform_solution({a.position!r}) raised {type(e).__name__}: {e}"[:300])
         c = float(a.cost)
